@@ -36,6 +36,7 @@ def plan(exp, tier):
             for lm in ls:
                 u.add_root(lm.verus_text('C06'))
             matcore.add_inverted(u, ms, prologue='proof { crate::vec::lemma_sm_new_all(); } ' + pro)
+            matcore.add_affine_inverses(u, ms)
     p.lemmas += matcore.c06_theorems(u)
     p.add_unit('c06', u, ['vec', 'mat'])
     p.notes.append('inverted4_mirror / det4_code_shape are proof artifacts mirroring mat.rs at callee-contract granularity; '
